@@ -36,7 +36,7 @@ Lemma pres_set_offline : Pres set_offline. Proof. unfold set_offline, bindM, mod
 Lemma pres_set_online : Pres set_online.
 Proof. unfold set_online, set_offline, bindM, modify, hook_close, hook_open. frame. Qed.
 Lemma pres_set_available : Pres set_available.
-Proof. unfold set_available, set_online, set_offline, bindM, modify, hook_close, hook_open, emit. frame. Qed.
+Proof. unfold set_available, set_online, set_offline, whenM, not_aa, aa, bindM, modify, hook_close, hook_open, emit. frame. Qed.
 Lemma pres_call_unavailable : Pres call_unavailable.
 Proof. unfold call_unavailable, hook_close, panic. frame. Qed.
 Lemma pres_handler_start : Pres handler_start. Proof. unfold handler_start, panic. frame. Qed.
@@ -76,7 +76,7 @@ Qed.
 Lemma bump_conf_readers s :
   s_conf (bump_on_demand s) = s_conf s /\ s_readers (bump_on_demand s) = s_readers s.
 Proof.
-  destruct s as [cf ? ? ? ? ? ? ? sst ? ? ? ? pst ? ? ? ? ?]. unfold bump_on_demand. cbn.
+  destruct s as [cf ? ? ? ? ? ? ? sst ? ? ? ? pst ? ? ? ? ? ?]. unfold bump_on_demand. cbn.
   destruct (od_static cf); [destruct sst; split; reflexivity|].
   destruct (od_pub cf); [destruct pst; split; reflexivity|split; reflexivity].
 Qed.
@@ -124,8 +124,14 @@ Proof.
   apply pres_frame. intros t. destruct t; split; reflexivity.
 Qed.
 
+Lemma pres_source_gone : Pres source_gone.
+Proof.
+  assert (P : Pres (set_offline ;; start_offline)).
+  { apply (pres_bind _ _ pres_set_offline). unfold start_offline. setter_frame. }
+  intros s. unfold PresAt, source_gone. destruct (aa s); [apply P|apply pres_set_not_available].
+Qed.
 Lemma pres_execute_remove_publisher : Pres execute_remove_publisher.
-Proof. unfold execute_remove_publisher. apply pres_bind; [apply pres_set_not_available|setter_frame]. Qed.
+Proof. unfold execute_remove_publisher. apply pres_bind; [apply pres_source_gone|setter_frame]. Qed.
 
 Ltac pres_auto :=
   repeat first
@@ -133,7 +139,7 @@ Ltac pres_auto :=
     | apply pres_set_not_available | apply pres_set_available | apply pres_set_offline | apply pres_set_online
     | apply pres_ss_start | apply pres_ss_stop | apply pres_ss_schedule_close
     | apply pres_pub_start | apply pres_pub_stop | apply pres_pub_schedule_close
-    | apply pres_fail_on_hold | apply pres_consume | apply pres_execute_remove_publisher
+    | apply pres_fail_on_hold | apply pres_consume | apply pres_execute_remove_publisher | apply pres_source_gone
     | apply pres_handler_stop | apply pres_handler_start | apply pres_hook_close | apply pres_hook_open
     | apply pres_call_unavailable | apply pres_panic | apply pres_add_reader_post
     | apply pres_bind | apply pres_when
@@ -144,8 +150,13 @@ Proof. intros s. split; auto. Qed.
 Lemma pres_same' (f : pstate -> list pevent) : Pres (fun t => (t, f t)).
 Proof. intros s. split; auto. Qed.
 
-Lemma pres_attach q p : Pres (attach_publisher q p).
-Proof. unfold attach_publisher. pres_auto; try apply pres_same'. Qed.
+Lemma pres_attach_tail q p : Pres (attach_tail q p).
+Proof. unfold attach_tail. pres_auto; try apply pres_same'. Qed.
+Lemma pres_attach q p ok : Pres (attach_publisher q p ok).
+Proof.
+  unfold attach_publisher. apply pres_bind; [apply pres_when, pres_set_available|].
+  intros s. unfold PresAt. cbn beta. destruct (aa s && negb ok); [split; auto|apply pres_attach_tail].
+Qed.
 
 (* a goal PresAt (composite handler) s, after the case analysis of the handler's own conditions *)
 Ltac presat :=
@@ -199,14 +210,14 @@ Proof.
     destruct (od_pub (s_conf s)); presat.
 Qed.
 
-Lemma pres_do_add_publisher q p : Pres (do_add_publisher q p).
+Lemma pres_do_add_publisher q p ok : Pres (do_add_publisher q p ok).
 Proof.
   intros s. unfold PresAt, do_add_publisher. destruct (c_static (s_conf s)); [presat|].
   destruct (s_source s); [|apply pres_attach].
   destruct (negb (c_override (s_conf s))); [presat|].
-  change (PresAt (emit [EPubClosed z];; execute_remove_publisher;; attach_publisher q p) s).
-  revert s. change (Pres (emit [EPubClosed z];; execute_remove_publisher;; attach_publisher q p)).
-  pres_auto; try apply pres_attach.
+  change (PresAt (emit [EPubClosed z];; execute_remove_publisher;; attach_publisher q p ok) s).
+  revert s. change (Pres (emit [EPubClosed z];; execute_remove_publisher;; attach_publisher q p ok)).
+  apply pres_bind; [apply pres_emit|]. apply pres_bind; [apply pres_execute_remove_publisher|apply pres_attach].
 Qed.
 
 Lemma pres_do_remove_publisher fx p : Pres (do_remove_publisher fx p).
